@@ -77,8 +77,8 @@ CLAIMS = {
    text="40 (quick) / 400 (thorough) random backend sets x 3 (user, path) requests: backends are registered through the admin API, their trackers aged in the fake datastore, a client request is issued and the backend it was stored under is read off the datastore; the TLA+ operator RouteAnswers gives the set of acceptable answers (any maximal live candidate, 404 otherwise) and the same request must route identically twice.",
    note="Trusted: TLC, fake App Engine API. Function-level exhaustive comparison of mostSpecificMatchingBackend is not done separately; prefix/path domains are small (7 prefixes, 8 paths) and exercised through the whole app.",
    design="6 C18"),
- "C19": dict(engine="AppProxy", technique="TLA+ spec AppProxy (response call with failing store writes and a bounded error channel: NoHang; ErrSlots attack; Parts(n) blob rule) checked by TLC + relay scenarios at exact size boundaries and failing-write subsets on the real app + TLC trace validation",
-   text="TLC proves that the response call always returns with room for both errors and hangs with one slot; on the real app one request is relayed per serialised size in {0..3.5 MB, incl. 999999/1000000/1000001 and 1999999/2000000/2000001 hit exactly}: the agent must fetch exactly the client's request, the client must get exactly the posted response, the number of blob parts must equal Parts(n), the completed request must not be listed again; two requests answered in reverse order; and the response call under every subset of failing datastore writes must be answered (non-200) within 8 s.",
+ "C19": dict(engine="AppProxy", technique="TLA+ specs AppProxy (response call with failing store writes and a bounded error channel: NoHang; ErrSlots attack; Parts(n) blob rule) and AppRelay (concurrent relay through the store: FetchIsRequest, ResponseIsOwn, CompletedNotListed) checked by TLC + relay scenarios at exact size boundaries and failing-write subsets on the real app + TLC trace validation",
+   text="TLC proves that the response call always returns with room for both errors and hangs with one slot; on the real app one request is relayed per serialised size in {0..3.5 MB, incl. 999999/1000000/1000001 and 1999999/2000000/2000001 hit exactly}: the agent must fetch exactly the client's request, the client must get exactly the posted response, the number of blob parts must equal Parts(n), the completed request must not be listed again; two requests answered in reverse order; the response call under every subset of failing datastore writes must be answered (non-200) within 8 s; and rounds of 6-10 concurrent client requests over two backends with concurrent agent list/fetch/respond calls, where the fake App Engine API logs every store operation at its linearisation point and the whole trace must be a behaviour of the AppRelay model (checked by TLC exhaustively for 3 requests / 2 backends; SharedResponseKey attack).",
    note="Trusted: TLC, fake App Engine API with fault injection on datastore Put by kind. The 30 s 504 path is not exercised in the quick tier.",
    design="6 C19"),
  "C01": dict(engine="Relay", technique="TLA+ spec Relay checked by TLC (exhaustive interleavings, liveness, IdCollision attack) + TLC trace validation (RelayTrace) of recorded executions of the real proxy/agent binaries, incl. -race builds",
